@@ -121,6 +121,7 @@ package header
 // Verify against a verified header; the predicate is only ever introduced by the step axiom below.
 //@ predicate verified(h H)
 //@ axiom verified-step: forall t H, u H :: verified(t) && passedVerify(t, u) ==> verified(u)
+//@ axiom verified-heights: forall h H @ verified(h) :: verified(h) ==> h.Height() < 9223372036854775808 -- A-chain: heights of real headers stay below 2^63
 
 //@ ghost var storeAppends int -- number of Append calls that reached the inner store
 
